@@ -148,6 +148,7 @@ CallChecks(e) ==
     [] e.op = "spine_types" -> << <<"spine_types", e.res = SpineTypes(e.args.alltypes, SetOf(e.args.types))>> >>
     [] e.op = "spine_ids"  -> << <<"spine_ids", e.res = SpineIds>> >>
     [] e.op = "iter"       -> << <<"iterate", IF M = 0 THEN ~e.res.ok ELSE e.res.ok /\ e.res.v = [j \in 1..M |-> j]>> >>
+    [] e.op = "iterpairs"  -> << <<"iterate.two_iterators", IF M = 0 THEN ~e.res.ok ELSE e.res.ok /\ e.res.v = [j \in 1..M |-> <<j, j>>]>> >>
     [] e.op = "mcount"     -> << <<"measures_count", IF M = 0 THEN ~e.res.ok ELSE e.res.ok /\ e.res.v = M>> >>
     [] e.op = "opaque"     -> <<>>                                                        \* a call only watched for purity
     [] OTHER -> << <<"unknown_op", FALSE>> >>
